@@ -534,15 +534,22 @@ pub fn run_cases(cases: Vec<Case>, only: Option<&str>) -> (u64, Vec<(String, Str
     let next = AtomicUsize::new(0);
     let viol: Mutex<Vec<(usize, String)>> = Mutex::new(vec![]);
     let n = std::thread::available_parallelism().map(|n| n.get()).unwrap_or(4);
+    let all_names: Vec<String> = cases.iter().map(|c| c.0.clone()).collect();
+    let watch = crate::watchdog(n, cases.len(), Box::new(move |i| all_names[i].clone()));
     std::thread::scope(|s| {
-        for _ in 0..n {
-            s.spawn(|| {
+        for wi in 0..n {
+            let watch = watch.clone();
+            let (next, viol, cases) = (&next, &viol, &cases);
+            s.spawn(move || {
                 loop {
                     let i = next.fetch_add(1, Ordering::Relaxed);
                     if i >= cases.len() {
                         break;
                     }
-                    if let Err(e) = (cases[i].1)() {
+                    watch.begin(wi, i);
+                    let r = (cases[i].1)();
+                    watch.end(wi);
+                    if let Err(e) = r {
                         viol.lock().unwrap().push((i, e));
                     }
                 }
